@@ -10,8 +10,9 @@
      dd     [in-use directory -> inode its ".." names]
      ea     [in-use inode -> 0/1]      owns an xattr block
      blk    [in-use inode -> blocks owned], fb = free blocks, leak = blocks in use without an owner
-     zomb   free inodes whose inode-table slot looks in use (link count > 0, no deletion time): what a refused mkdir /
-            symlink leaves behind when the name is looked up only after the inode was written
+     zomb   free inodes whose inode-table slot looks in use (link count > 0): what a refused mkdir / symlink leaves behind when
+            the name is looked up only after the inode was written (a defect), and what kill_file of an inode with a count
+            above 0 leaves behind by design (those are tainted as well: NoLeak)
    and two history components that say how far RAW operations (ln, unlink, kill_file, sif) moved the stored count
    away from the directory references:
      skew   [in-use inode -> Int]      expected value of Refs(i) - links[i]
@@ -114,12 +115,14 @@ Release(s, i, fe) ==
                        !.leak = @ + (IF leaks THEN 1 ELSE 0)]
    IN s1
 \* raw operations: the history says the balance moved by exactly the change of Want
-Reskew(s1) == LET R == RefMap(s1) IN [s1 EXCEPT !.skew = [j \in Alloc(s1) |-> IF SaturatedR(s1, R, j) THEN 0 ELSE R[j] - s1.links[j]]]
+\* (a directory whose count reads 1 while its references exceed the limit IS saturated from then on, however it got there)
+Reskew(s1) == LET R == RefMap(s1) IN [s1 EXCEPT !.skew = [j \in Alloc(s1) |-> IF SaturatedR(s1, R, j) THEN 0 ELSE R[j] - s1.links[j]],
+                                                !.sat = @ \cup {j \in Alloc(s1) : SaturatedR(s1, R, j)}]
 \* counted operations keep skew; a freshly allocated inode inherits the names that dangled at its number
 NewSkew(s, i, t) == Cardinality({e \in Entries(s) : s.ent[e[1]][e[2]][1] = i})
                     + (IF t = FTDIR THEN Cardinality({c \in DOMAIN s.dd : s.dd[c] = i}) ELSE 0)
 \* a released inode stays tainted until no name points at it any more
-Clean(s) == [s EXCEPT !.taint = {i \in @ : \E e \in Entries(s) : s.ent[e[1]][e[2]][1] = i}, !.sat = @ \cap Alloc(s)]
+Clean(s) == [s EXCEPT !.taint = {i \in @ : i \in s.zomb \/ \E e \in Entries(s) : s.ent[e[1]][e[2]][1] = i}, !.sat = @ \cap Alloc(s)]
 
 AddName(s, d, n, i, t) == [s EXCEPT !.ent[d] = With(@, n, <<i, Ft(t)>>)]
 DelName(s, d, n) == [s EXCEPT !.ent[d] = Without(@, n)]
@@ -188,7 +191,9 @@ Rmdir(s, o) ==          \* debugfs rmdir: must be an empty directory; count := 0
 
 KillFile(s, o) ==       \* debugfs kill_file <ino>: release, names untouched
    IF o.i \notin Alloc(s) \/ o.i = Root THEN s
-   ELSE LET s1 == Release(s, o.i, o.fe) IN Reskew([s1 EXCEPT !.taint = @ \cup {o.i}])
+   \* the victim's i_links_count is not touched: with a count above 0 the inode-table slot still looks in use (e2fsck: "in use, but
+   \* has dtime set") until the inode number is allocated again -- a zombie the raw operation is entitled to (it stays tainted)
+   ELSE LET s1 == Release(s, o.i, o.fe) IN Reskew([s1 EXCEPT !.taint = @ \cup {o.i}, !.zomb = IF s.links[o.i] > 0 THEN @ \cup {o.i} ELSE @])
 
 SetLinks(s, o) ==       \* debugfs sif <ino> links_count v
    IF o.i \notin Alloc(s) THEN s ELSE Reskew([s EXCEPT !.links[o.i] = o.v % LinkMod])
@@ -231,5 +236,7 @@ NoFreeReferenced(s) == \A e \in Dangling(s) : s.ent[e[1]][e[2]][1] \in s.taint
 \* links = refs exactly when the history is balanced; and a balanced history leaves a consistent filesystem
 Balanced(s) == (\A i \in Alloc(s) : s.skew[i] = 0) /\ s.taint = {} /\ s.leak = 0 /\ s.zomb = {}
 BalancedIsConsistent(s) == Balanced(s) /\ Structure(s) => Consistent(s)
+\* removed objects release their blocks; an inode-table slot that looks in use although the inode is free comes from kill_file only
+NoLeak(s) == s.leak = 0 /\ s.zomb \subseteq s.taint
 SumBlk(s) == LET RECURSIVE Sm(_) Sm(T) == IF T = {} THEN 0 ELSE LET x == CHOOSE y \in T : TRUE IN s.blk[x] + Sm(T \ {x}) IN Sm(Alloc(s))
 =============================================================================
